@@ -232,3 +232,62 @@ pub fn int_of(e: &syn::Expr) -> Option<i128> {
         _ => None,
     }
 }
+
+fn serde_attrs(attrs: &[syn::Attribute]) -> String {
+    let mut v = vec![];
+    for a in attrs {
+        if a.path().is_ident("serde") {
+            v.push(quote::ToTokens::to_token_stream(&a.meta).to_string().replace(' ', ""));
+        }
+    }
+    v.join(";")
+}
+
+/// (container serde attributes, [(field name, field serde attributes, type tokens)]) of a named-field struct
+pub fn struct_fields(file: &syn::File, name: &str) -> Option<(String, Vec<(String, String, String)>)> {
+    for it in &file.items {
+        if let syn::Item::Struct(st) = it {
+            if st.ident == name {
+                if let syn::Fields::Named(n) = &st.fields {
+                    let fields = n
+                        .named
+                        .iter()
+                        .map(|f| {
+                            (
+                                f.ident.as_ref().unwrap().to_string(),
+                                serde_attrs(&f.attrs),
+                                quote::ToTokens::to_token_stream(&f.ty).to_string().replace(' ', ""),
+                            )
+                        })
+                        .collect();
+                    return Some((serde_attrs(&st.attrs), fields));
+                }
+            }
+        }
+    }
+    None
+}
+
+/// (container serde attributes, [(variant name, variant serde attributes, payload shape)]) of an enum
+pub fn enum_variants(file: &syn::File, name: &str) -> Option<(String, Vec<(String, String, String)>)> {
+    for it in &file.items {
+        if let syn::Item::Enum(en) = it {
+            if en.ident == name {
+                let vs = en
+                    .variants
+                    .iter()
+                    .map(|v| {
+                        let shape = match &v.fields {
+                            syn::Fields::Unit => "unit".to_string(),
+                            syn::Fields::Unnamed(u) => format!("tuple{}", u.unnamed.len()),
+                            syn::Fields::Named(n) => format!("struct{}", n.named.len()),
+                        };
+                        (v.ident.to_string(), serde_attrs(&v.attrs), shape)
+                    })
+                    .collect();
+                return Some((serde_attrs(&en.attrs), vs));
+            }
+        }
+    }
+    None
+}
